@@ -68,6 +68,7 @@ def run_one(mut, tier: str, suite: bool):
             return res
         if suite:
             shutil.copytree("/repo/tests", os.path.join(work, "tests"))
+            shutil.copytree("/repo/docs", os.path.join(work, "docs"))
             shutil.copy("/repo/pyproject.toml", work)
             r = subprocess.run([PY, "-m", "pytest", "-q", "-p", "no:cacheprovider", "-x", "--timeout=600", "tests",
                                 "--deselect", "tests/test_scan_features.py"], cwd=work,
